@@ -493,6 +493,91 @@ pub fn size_sweep(ctx: &Ctx, mode: Mode, total: &mut Part) -> Value {
     "transitions_per_pair": "and, or, xor in both operand orders, not of each operand"})
 }
 
+
+// ---------------------------------------------------------------------------------------------
+// merge cascades: staircases (three full siblings per level along a path, four at the deepest
+// level) pack into one cell through a cascade of k merges on 3k + 1 entries -- every k
+// ---------------------------------------------------------------------------------------------
+
+/// Staircase under the cell (top_depth, root) down to depth_max `dm` along the child path `path`.
+/// Returns (entries without the last path child, the last path child).
+pub fn staircase(top_depth: u8, root: u64, dm: u8, path: u8) -> (Vec<Entry>, Entry) {
+  let mut entries: Vec<Entry> = vec![];
+  let mut cur = root;
+  for l in (top_depth + 1)..=dm {
+    let p = match path {
+      0 => 0,
+      1 => 3,
+      2 => 1 + (l as u64 % 2),
+      _ => (l as u64 * 2_654_435_761 >> 7) % 4,
+    };
+    for i in 0..4u64 {
+      if i != p {
+        entries.push((l, cur * 4 + i, true));
+      }
+    }
+    cur = cur * 4 + p;
+  }
+  entries.sort_by_key(|e| e.1 << (2 * (dm - e.0) as u32));
+  (entries, (dm, cur, true))
+}
+
+pub fn cascade_sweep(ctx: &Ctx, mode: Mode, total: &mut Part) -> Value {
+  let mut n = 0u64;
+  for dm in 1..=29u8 {
+    for (top, root) in [(0u8, 5u64), (2, 117)] {
+      if top >= dm {
+        continue;
+      }
+      for path in 0..4u8 {
+        if ctx.over_budget() {
+          total.caps.push(format!("wall budget {}s reached in the cascade sweep", ctx.budget_s));
+          break;
+        }
+        let (stairs, last) = staircase(top, root, dm, path);
+        let mut whole = stairs.clone();
+        whole.push(last);
+        whole.sort_by_key(|e| e.1 << (2 * (dm - e.0) as u32));
+        // operands: the staircase without its last cell, the last cell alone (at depth_max dm and,
+        // flagged variant, partial), the whole (unpacked) staircase, the root cell
+        let a = Bm::new(dm, stairs.clone());
+        let mut ops: Vec<Bm> = vec![Bm::new(dm, vec![last]), Bm::new(dm, whole.clone()), Bm::new(top, vec![(top, root, true)])];
+        if mode != Mode::Moc {
+          ops.push(Bm::new(dm, vec![(last.0, last.1, false)]));
+          let mut w2 = whole.clone();
+          let mid = w2.len() / 2;
+          w2[mid].2 = false;
+          ops.push(Bm::new(dm, w2));
+        }
+        let (ai, am) = (a.to_impl(), a.to_map().expect("oracle: staircase"));
+        for b in &ops {
+          let (bi, bm) = (b.to_impl(), b.to_map().expect("oracle: staircase operand"));
+          total.stratum("merge-cascades", 2, 0);
+          n += 1;
+          for (x, xi, xm, y, yi, ym) in [(&a, &ai, &am, b, &bi, &bm), (b, &bi, &bm, &a, &ai, &am)] {
+            for op in BIN_OPS {
+              total.stratum("merge-cascades", 0, 1);
+              let (out, v) = transition(mode, op, x, xi, xm, Some((y, yi, ym)), total);
+              if let Some(o) = out {
+                total.outcome(hash64(&[o.entries.len() as u64, o.depth_max as u64, o.entries.first().map(|e| e.1).unwrap_or(0)]));
+              }
+              if let Some(v) = v {
+                total.viol(v);
+              }
+            }
+          }
+          total.stratum("merge-cascades", 0, 1);
+          if let (_, Some(v)) = transition(mode, Op::Not, b, &bi, &bm, None, total) {
+            total.viol(v);
+          }
+        }
+      }
+    }
+  }
+  json!({"search": "merge-cascades", "operand_pairs": n, "cascade_lengths": "every k = 1..=29 (depth_max 1..=29 under a depth-0 and a depth-2 cell), 4 child paths",
+    "operands": "staircase without its last cell x {last cell, whole unpacked staircase, root cell (+ partial last cell, one partial stair for flagged modes)}"})
+}
+
 pub fn specs(mode: Mode, quick: bool) -> Vec<(UniverseSpec, usize)> {
   let partial = mode != Mode::Moc;
   let mut v = vec![];
@@ -536,6 +621,7 @@ pub fn run(ctx: &Ctx, mode: Mode) -> i32 {
   let info = search(ctx, mode, "coverage-sized-operands", cov, 1, &mut total);
   searches.push(info);
   searches.push(size_sweep(ctx, mode, &mut total));
+  searches.push(cascade_sweep(ctx, mode, &mut total));
   let mut extra = Map::new();
   extra.insert("searches".into(), json!(searches));
   let what = match mode {
